@@ -62,6 +62,20 @@ func encLaw(name string, e encode.Encoder, v interface{}, ref []byte, junk []byt
 		}
 		if len(junk) > 0 && !bytes.Equal(withJunk[:len(enc)], ref) {
 			verr = viol("mutated", "%s.Decode modified its input", name)
+			return nil
+		}
+		// The encoding belongs to the caller: it frames it in place (append) and
+		// recycles it (overwrite). Later encodings must not notice (C15-g: results
+		// cut out of a shared table with spare capacity).
+		framed := append(enc, 0xa5, 0x5a, 0xa5, 0x5a, 0xa5, 0x5a, 0xa5, 0x5a, 0xa5)
+		for i := range framed {
+			framed[i] ^= 0xff
+		}
+		for i := range enc {
+			enc[i] = 0xee
+		}
+		if again := e.Encode(v); !bytes.Equal(again, ref) {
+			verr = viol("encoding-overwritten", "%s.Encode(%v) = %x after the caller appended to and overwrote an earlier result of Encode; reference layout is %x", name, v, again, ref)
 		}
 		return nil
 	})
